@@ -160,6 +160,8 @@ class Scheduler:
             horizon = max(self.strategy.get("horizon", 400), 2)
             self.change_points = set(self.rng.randrange(1, horizon) for _ in range(k))
         self.opcode = bool(self.strategy.get("opcode"))
+        if self.opcode:
+            self.max_steps *= 10         # bytecode granularity: about ten events per source line
 
     # -- tracing
     def _global_trace(self, frame, event, arg):
